@@ -20,6 +20,7 @@ type e2eItem struct {
 	File   bool      `json:"file_store"`
 	Path   []uint8   `json:"path"`
 	Budget c05Budget `json:"budget"`
+	Mode   int       `json:"mode,omitempty"` // 1: every cut of the path happens with the writes failing first
 }
 
 type e2eViolation struct {
